@@ -40,6 +40,10 @@ func sameIndex(a, b desync.Index) string {
 var c04Fixtures = []string{"testdata/index.caibx", "testdata/chunker.index", "testdata/blob1.caibx", "cmd/desync/testdata/blob1.caibx", "cmd/desync/testdata/blob2.caibx", "cmd/desync/testdata/tree.caidx"}
 
 func runC04(c *fw.Case) {
+	if desyncBin() != "" && c.Chance(1, procRate(25), "c04.proc") {
+		runC04Proc(c)
+		return
+	}
 	sha256mode := c.Chance(1, 4, "sha256")
 	if sha256mode {
 		desync.Digest = desync.SHA256{}
@@ -105,7 +109,10 @@ func runC04(c *fw.Case) {
 		idx.Chunks = append(idx.Chunks, desync.IndexChunk{ID: id, Start: pos, Size: s})
 		pos += s
 	}
-	storeKind := c.Draw(7, "store") % 4 // 0 stream, 1 local index store, 2 http index store, 3 S3 index store (read side; rarer: real sockets)
+	storeKind := c.Draw(7, "store") % 4 // 0 stream, 1 local index store, 2 http index store, 3 S3 or SFTP index store (rarer: real sockets / a child process)
+	if storeKind == 3 && c.Bool("store.sftp") {
+		storeKind = 4
+	}
 	c.Class(fmt.Sprintf("chunks<=%d store=%d sha256=%v", (n+15)/16*16, storeKind, sha256mode))
 	c.Note("index chunks=%d sizes=%v flags=%x store=%d sha256=%v", n, sz, flags, storeKind, sha256mode)
 	var buf bytes.Buffer
@@ -193,6 +200,41 @@ func runC04(c *fw.Case) {
 			return nil
 		}
 		get = func() (desync.Index, error) { return is.GetIndex("x.caibx") }
+		// store through the client as well (a multipart upload of unknown length)
+		if c.Chance(1, 4, "s3.store") {
+			c.Probe("S3IndexStore.StoreIndex (multipart upload)")
+			if err := is.StoreIndex("y.caibx", idx); err != nil {
+				c.Violate("store-failed", "S3IndexStore.StoreIndex", "%v", err)
+				return
+			}
+			s3.mu.Lock()
+			yb := s3.objects["idx/y.caibx"]
+			s3.mu.Unlock()
+			if !bytes.Equal(yb, file) {
+				c.Violate("stored-bytes-differ", "S3IndexStore.StoreIndex", "index stored through the S3 index store (%d bytes) differs from Index.WriteTo output (%d bytes)", len(yb), len(file))
+				return
+			}
+		}
+	}
+	if storeKind == 4 {
+		is, err := sftpIndexStore(dir)
+		if err != nil {
+			c.HarnessError("%v", err)
+			return
+		}
+		defer is.Close()
+		put = func(b []byte) error { return os.WriteFile(filepath.Join(dir, "x.caibx"), b, 0644) }
+		get = func() (desync.Index, error) { return is.GetIndex("x.caibx") }
+		c.Probe("SFTPIndexStore (pkg/sftp server over the ssh shim)")
+		if err := is.StoreIndex("y.caibx", idx); err != nil {
+			c.Violate("store-failed", "SFTPIndexStore.StoreIndex", "%v", err)
+			return
+		}
+		yb, _ := os.ReadFile(filepath.Join(dir, "y.caibx"))
+		if !bytes.Equal(yb, file) {
+			c.Violate("stored-bytes-differ", "SFTPIndexStore.StoreIndex", "index stored through the SFTP index store (%d bytes) differs from Index.WriteTo output (%d bytes)", len(yb), len(file))
+			return
+		}
 	}
 	try := func(b []byte) (desync.Index, error, bool) {
 		if err := put(b); err != nil {
